@@ -3586,6 +3586,118 @@ theorem C09_source_reports_everything :
     Generated.lexCfg.logicalRejectsUnset = true ∧ Generated.lexCfg.binaryRejectsEmpty = true ∧ Generated.lexCfg.dollarKeepsError = true := by
   decide
 
+/-! accept, anywhere in a stream and for either state of `skipws` (configurations whose `CheckRemainingInput` skips comments,
+as the regenerated one does; the layout lemmas of the shared reader model are stated for those) -/
+
+theorem C09_accept_integer_anywhere {F} (ops : FloatOps F) (cfg : LexCfg) (hcfg : cfg.criSkipsComments = true)
+    (lookup : Int → RefLookup) (nullable : Bool) (tok sp rest l0 : List Byte) (d : Byte) (sk : Bool)
+    (htok : isInteger tok = true) (hlo : longMin ≤ denoteInteger tok) (hhi : denoteInteger tok ≤ longMax)
+    (hsp : Gap cfg sp) (hd : d = 44 ∨ d = 41) :
+    attrRead ops cfg lookup .integer nullable (G l0 (tok ++ (sp ++ d :: rest)) sk) =
+      .ok ⟨Sev.null.sentinelIf (intSentinel cfg (some (denoteInteger tok))), intValue (some (denoteInteger tok)),
+        G (sp.reverse ++ (tok.reverse ++ l0)) (d :: rest) sk⟩ := by
+  have hrd := readInteger_tok cfg hcfg tok htok hlo hhi l0 sk sp (gap_seps hcfg hsp) d rest hd
+  obtain ⟨c, u, hcu, hcs, h36, h44, h41⟩ := isInteger_head tok htok
+  have hcond : (c == 36 || c == 44 || c == 41) = false := by simp [h36, h44, h41]
+  rw [hcu] at hrd ⊢
+  simp only [List.cons_append] at hrd ⊢
+  simp only [attrRead, ws_good0 _ _ _ _ hcs, peekC_good, hcond, Bool.false_eq_true, if_false, hrd]
+
+theorem C09_accept_real_anywhere {F} (ops : FloatOps F) (cfg : LexCfg) (hcfg : cfg.criSkipsComments = true)
+    (lookup : Int → RefLookup) (nullable : Bool) (tok sp rest l0 : List Byte) (d : Byte) (sk : Bool) (dec : Decimal) (v : F)
+    (htok : isReal tok = true) (hden : denoteReal tok = some dec) (hv : ops.ofDecimal dec = some v)
+    (hbuf : cfg.realBuf = 0 ∨ tok.length < cfg.realBuf) (hsp : Gap cfg sp) (hd : d = 44 ∨ d = 41) :
+    attrRead ops cfg lookup .real nullable (G l0 (tok ++ (sp ++ d :: rest)) sk) =
+      .ok ⟨Sev.null.sentinelIf (cfg.realNullReported && ops.isRealNull v), realValue ops (some v),
+        G (sp.reverse ++ (tok.reverse ++ l0)) (d :: rest) sk⟩ := by
+  have hrd := readReal_tok ops cfg hcfg tok dec v htok hden hv hbuf l0 sk sp (gap_seps hcfg hsp) d rest hd
+  obtain ⟨c, u, hcu, hcs, _, _⟩ := isReal_head tok htok
+  have hne3 : c ≠ 36 ∧ c ≠ 44 ∧ c ≠ 41 := by
+    refine ⟨?_, ?_, ?_⟩ <;>
+    · intro h; subst h; rw [hcu] at htok; revert htok; simp [isReal, splitSign, takeDigits, isDigit]
+  have hcond : (c == 36 || c == 44 || c == 41) = false := by simp [hne3.1, hne3.2.1, hne3.2.2]
+  rw [hcu] at hrd ⊢
+  simp only [List.cons_append] at hrd ⊢
+  simp only [attrRead, ws_good0 _ _ _ _ hcs, peekC_good, hcond, Bool.false_eq_true, if_false, hrd, realSentinel]
+
+theorem C09_accept_number_anywhere {F} (ops : FloatOps F) (cfg : LexCfg) (hcfg : cfg.criSkipsComments = true)
+    (lookup : Int → RefLookup) (nullable : Bool) (tok sp rest l0 : List Byte) (d : Byte) (sk : Bool) (dec : Decimal) (v : F)
+    (htok : isReal tok = true ∨ isInteger tok = true) (hden : denoteReal tok = some dec) (hv : ops.ofDecimal dec = some v)
+    (hsp : Gap cfg sp) (hd : d = 44 ∨ d = 41) :
+    attrRead ops cfg lookup .number nullable (G l0 (tok ++ (sp ++ d :: rest)) sk) =
+      .ok ⟨Sev.null.sentinelIf (cfg.numberNullReported && ops.isRealNull v), realValue ops (some v),
+        G (sp.reverse ++ (tok.reverse ++ l0)) (d :: rest) sk⟩ := by
+  have hrd := AggrLemmas.readNumber_tok ops cfg hcfg tok dec v htok hden hv l0 sk sp (gap_seps hcfg hsp) d rest hd
+  obtain ⟨c, u, hcu, hcs, hne3⟩ : ∃ c u, tok = c :: u ∧ isSpace c = false ∧ (c ≠ 36 ∧ c ≠ 44 ∧ c ≠ 41) := by
+    rcases htok with hr | hi
+    · obtain ⟨c, u, hcu, hcs, _, _⟩ := isReal_head tok hr
+      refine ⟨c, u, hcu, hcs, ?_, ?_, ?_⟩ <;>
+      · intro h; subst h; rw [hcu] at hr; revert hr; simp [isReal, splitSign, takeDigits, isDigit]
+    · obtain ⟨c, u, hcu, hcs, h36, h44, h41⟩ := isInteger_head tok hi
+      exact ⟨c, u, hcu, hcs, h36, h44, h41⟩
+  have hcond : (c == 36 || c == 44 || c == 41) = false := by simp [hne3.1, hne3.2.1, hne3.2.2]
+  rw [hcu] at hrd ⊢
+  simp only [List.cons_append] at hrd ⊢
+  simp only [attrRead, ws_good0 _ _ _ _ hcs, peekC_good, hcond, Bool.false_eq_true, if_false, hrd, realSentinel]
+
+theorem C09_accept_string_anywhere {F} (ops : FloatOps F) (cfg : LexCfg) (hcfg : cfg.criSkipsComments = true)
+    (lookup : Int → RefLookup) (nullable : Bool) (b sp rest l0 : List Byte) (d : Byte) (sk : Bool)
+    (hb : StringBody b) (hsp : Gap cfg sp) (hd : d = 44 ∨ d = 41) :
+    attrRead ops cfg lookup .string nullable (G l0 (39 :: (b ++ 39 :: (sp ++ d :: rest))) sk) =
+      .ok ⟨.null, .str (39 :: (b ++ [39])), G (sp.reverse ++ (39 :: (b.reverse ++ 39 :: l0))) (d :: rest) false⟩ := by
+  have hs := gap_seps hcfg hsp
+  obtain ⟨c, u, hcu, hc39⟩ := seps_head_not_apos sp hs d rest hd
+  have hcond : ((39 : Byte) == 36 || (39 : Byte) == 44 || (39 : Byte) == 41) = false := by decide
+  have hcri := cri_seps cfg hcfg sp hs (39 :: (b.reverse ++ 39 :: l0)) rest d false false .null hd
+  simp only [attrRead, ws_good0 _ _ _ _ (show isSpace 39 = false from by decide), peekC_good, hcond, Bool.false_eq_true, if_false]
+  rw [hcu, stringRead_tok b hb l0 sk c u hc39]
+  simp only
+  rw [← hcu, hcri]
+  simp
+
+theorem C09_accept_binary_anywhere {F} (ops : FloatOps F) (cfg : LexCfg) (hcfg : cfg.criSkipsComments = true)
+    (lookup : Int → RefLookup) (nullable : Bool) (hex sp rest l0 : List Byte) (d : Byte) (sk : Bool)
+    (hne : hex ≠ []) (hhex : hex.all isXDigit = true) (hsp : Gap cfg sp) (hd : d = 44 ∨ d = 41) :
+    attrRead ops cfg lookup .binary nullable (G l0 (34 :: (hex ++ 34 :: (sp ++ d :: rest))) sk) =
+      .ok ⟨.null, .bin hex, G (sp.reverse ++ (34 :: (hex.reverse ++ 34 :: l0))) (d :: rest) sk⟩ := by
+  have hs := gap_seps hcfg hsp
+  have hcond : ((34 : Byte) == 36 || (34 : Byte) == 44 || (34 : Byte) == 41) = false := by decide
+  have hcri := cri_seps cfg hcfg sp hs (34 :: (hex.reverse ++ 34 :: l0)) rest d false sk .null hd
+  have hemp : hex.isEmpty = false := by
+    cases hex with
+    | nil => exact absurd rfl hne
+    | cons _ _ => rfl
+  simp only [attrRead, ws_good0 _ _ _ _ (show isSpace 34 = false from by decide), peekC_good, hcond, Bool.false_eq_true, if_false,
+    readBinary_tok cfg hex hne hhex l0 sk (sp ++ d :: rest), hcri, hemp]
+
+theorem C09_accept_ref_anywhere {F} (ops : FloatOps F) (cfg : LexCfg) (hcfg : cfg.criSkipsComments = true)
+    (lookup : Int → RefLookup) (nullable : Bool) (ds sp rest l0 : List Byte) (d : Byte) (sk : Bool)
+    (hne : ds ≠ []) (hds : ds.all isDigit = true) (hhi : ((digitsVal ds 0 : Nat) : Int) ≤ intMax)
+    (hfound : lookup ((digitsVal ds 0 : Nat) : Int) = .found) (hsp : Gap cfg sp) (hd : d = 44 ∨ d = 41) :
+    attrRead ops cfg lookup .ref nullable (G l0 (35 :: (ds ++ (sp ++ d :: rest))) sk) =
+      .ok ⟨.null, .ref ((digitsVal ds 0 : Nat) : Int), G (sp.reverse ++ (ds.reverse ++ 35 :: l0)) (d :: rest) sk⟩ := by
+  have hcond : ((35 : Byte) == 36 || (35 : Byte) == 44 || (35 : Byte) == 41) = false := by decide
+  simp only [attrRead, ws_good0 _ _ _ _ (show isSpace 35 = false from by decide), peekC_good, hcond, Bool.false_eq_true, if_false,
+    readEntityRef_tok cfg hcfg lookup ds hne hds hhi hfound l0 sk sp (gap_seps hcfg hsp) d rest hd]
+
+theorem C09_accept_enum_anywhere {F} (ops : FloatOps F) (cfg : LexCfg) (hcfg : cfg.criSkipsComments = true)
+    (lookup : Int → RefLookup) (k : Kind) (hk : EnumLike k) (nullable : Bool) (name sp rest l0 : List Byte) (d : Byte) (sk : Bool)
+    (i : Nat) (hne : name ≠ []) (hname : name.all pw = true) (hfind : findName k.enumKind.table (name.map toUpper) = some i)
+    (hset : k.enumKind.isUnsetIdx i = false) (hsp : Gap cfg sp) (hd : d = 44 ∨ d = 41) :
+    attrRead ops cfg lookup k nullable (G l0 (46 :: (name ++ 46 :: (sp ++ d :: rest))) sk) =
+      .ok ⟨.null, .enum i, G (sp.reverse ++ (46 :: (name.reverse ++ 46 :: l0))) (d :: rest) sk⟩ := by
+  have hs := gap_seps hcfg hsp
+  have hcond : ((46 : Byte) == 36 || (46 : Byte) == 44 || (46 : Byte) == 41) = false := by decide
+  have hshape := attrRead_enumlike_at_sk ops cfg lookup k hk nullable l0 [] (name ++ 46 :: (sp ++ d :: rest)) sk 46 (by simp) (by decide) hcond
+  simp only [List.nil_append, List.reverse_nil] at hshape
+  have hcri := cri_seps cfg hcfg sp hs (46 :: (name.reverse ++ 46 :: l0)) rest d false sk .null hd
+  rw [show G l0 (46 :: (name ++ 46 :: (sp ++ d :: rest))) sk =
+    ({ left := l0, right := 46 :: (name ++ 46 :: (sp ++ d :: rest)), eof := false, fail := false, bad := false, skipws := sk } : IStream) from rfl, hshape]
+  have hrd := enumRead_tok cfg k.enumKind nullable name i hne hname hfind hset l0 sk (sp ++ d :: rest)
+  simp only [show ({ left := l0, right := 46 :: (name ++ 46 :: (sp ++ d :: rest)), eof := false, fail := false, bad := false, skipws := sk } : IStream) =
+    G l0 (46 :: (name ++ 46 :: (sp ++ d :: rest))) sk from rfl, hrd, hcri]
+  simp [enumValue, hset]
+
 end Anywhere
 
 end StepModel.P21.C09
